@@ -35,6 +35,7 @@ import macro_check  # noqa: E402
 import macro_gen  # noqa: E402
 import c18_check  # noqa: E402
 import fill_check  # noqa: E402
+import cycle_check  # noqa: E402
 import cfg_probe  # noqa: E402
 import side_probe  # noqa: E402
 import ops as O  # noqa: E402
@@ -607,6 +608,19 @@ def check(pid, tier, seed):
                     broken.append(('correspondence', 'debug build: ' + fr2['correspondence']))
                 fill_info['debug_build'] = dict(entities_created=fr2['entities'], records=fr2['records'])
 
+    cycle_info = None
+    cycle_viol = []
+    if P.get('cycle'):
+        # quick tier: 50 million real cycles per configuration (a second); thorough tier: the whole 2^32 range (about 90 s)
+        yr = cycle_check.run(REPO, CACHE, COQ, limit=None if tier == 'thorough' else 50000000)
+        if yr['error']:
+            broken.append(('build', 'cycle probe: ' + yr['error']))
+        else:
+            cycle_viol = yr['violations']
+            for c in yr['correspondence']:
+                broken.append(('correspondence', 'cycle probe: ' + c))
+            cycle_info = dict(real_create_destroy_cycles=yr['cycles'], whole_generation_range=(tier == 'thorough'), runs=yr['runs'])
+
     cfgp_info = None
     cfgp_viol = []
     if P.get('cfgprobe'):
@@ -655,6 +669,10 @@ def check(pid, tier, seed):
     for v in cfgp_viol[:3]:
         path = write_replay(pid, dict(property=pid, kind='specification-violation', harness='cfg_probe', reason=v['what'], description=v['description'],
                                       program=v['program'], erased=v.get('erased'), seed=seed, pair=v['pair'], broken=broken))
+        violations.append('VIOLATION property=%s replay=%s' % (pid, path))
+    for v in cycle_viol[:3]:
+        path = write_replay(pid, dict(property=pid, kind='specification-violation', harness='cycle', reason=v['reason'], record=v['record'],
+                                      how='harness/cycle_probe creates and destroys one storage position (capacity 1) through the public API, up to 2^32+5 times; see the header of its main.rs', broken=broken))
         violations.append('VIOLATION property=%s replay=%s' % (pid, path))
     for v in fill_viol[:3]:
         path = write_replay(pid, dict(property=pid, kind='specification-violation', harness='fill', reason=v['reason'], record=v['record'],
@@ -835,14 +853,14 @@ def check(pid, tier, seed):
             trusted_base=['Coq 8.16.1 kernel incl. vm_compute', 'tools/extract.py (translator)', 'correspondence harness (harness/storage_harness, tools/gen_ops.py, tools/coqrun.py)',
                           'rustc/cargo', 'axioms: ' + (', '.join(axioms) if axioms else 'none (Closed under the global context)')],
             theorems=thms, cone_files=conefiles,
-            evaluations=total_cases + (big_info['builds'] if big_info else 0) + (side_info['scenarios'] if side_info else 0) + (1 if fill_info else 0) + (cfgp_info['pairs_compiled_and_compared'] if cfgp_info else 0) + (macro_info['cases'] if macro_info else 0) + ((c18_info['programs'] + c18_info['expansions_checked']) if c18_info else 0),
+            evaluations=total_cases + (big_info['builds'] if big_info else 0) + (side_info['scenarios'] if side_info else 0) + (1 if fill_info else 0) + (len(cycle_info['runs']) if cycle_info else 0) + (cfgp_info['pairs_compiled_and_compared'] if cfgp_info else 0) + (macro_info['cases'] if macro_info else 0) + ((c18_info['programs'] + c18_info['expansions_checked']) if c18_info else 0),
             distinct_nontrivial=len(distinct) + (macro_info['distinct'] if macro_info else 0) + ((c18_info['programs'] + c18_info['expansions_checked']) if c18_info else 0),
             rule='histories generated interactively from VERIF_SEED per stream; non-trivial = at least 10 operations including every kind in %s; distinct by the hash of the operation list' % sorted(need),
             traces_validated_against_impl=total_cases,
             model_disagreements=len(diffs), spec_failures=len(own),
             streams=[dict(config=cn, cases=s['cases'], ops=s['ops'], histories_meeting_run_theorem_hypotheses=s.get('wf_histories', 0), histories_meeting_history_theorem_hypotheses=s.get('hist_histories', 0), ops_by_kind=s['by_kind'], outcomes=s['outcomes']) for cn, s in stats_all],
             samples=([sample] if sample else []) + ([macro_info['sample']] if macro_info else []),
-            macro=macro_info, c18=c18_info, fill=fill_info, big_world=big_info, side_probe=side_info, cfg_probe=cfgp_info, coqchk=coqchk_note, programs=(c18_info['programs'] if c18_info else 0),
+            macro=macro_info, c18=c18_info, fill=fill_info, cycle=cycle_info, big_world=big_info, side_probe=side_info, cfg_probe=cfgp_info, coqchk=coqchk_note, programs=(c18_info['programs'] if c18_info else 0),
             exhaustive=any(r['case'].get('exhaustive') for r in all_results) if pid == 'C11' else False,
             explanation='machine-checked theorems over the model; model tied to the source by translation (coq/gen regenerated this run) and by differential execution of the same operations on the implementation',
         ),
@@ -907,6 +925,14 @@ def replay(path):
         print('recorded:', j['reason'])
         print('now:', hit[0]['what'] if hit else 'decorated and erased declarations agree', cr['error'] or '')
         if hit:
+            print('VIOLATION property=%s replay=%s' % (pid, path))
+            return 1
+        return 0
+    if j.get('harness') == 'cycle':
+        yr = cycle_check.run(REPO, CACHE, COQ)
+        print('recorded:', j['reason'], '|', j['record'])
+        print('now:', yr['runs'], yr['violations'], yr['error'])
+        if yr['violations']:
             print('VIOLATION property=%s replay=%s' % (pid, path))
             return 1
         return 0
